@@ -256,6 +256,8 @@ class Wtp:
         "lua_invoke",  # Lua function used to invoke a Lua module
         "lua_reset_env",  # Lua function to reset Lua environment
         "lua_clear_loaddata_cache",  # Lua function to clear mw.loadData() cache
+        "lua_set_timeout",  # Lua function to arm the execution time limit
+        "lua_clear_timeout",  # Lua function to disarm it
         "lua_path",  # Path to Lua modules
         "rev_ht",  # Mapping from text to magic cookie
         "expand_stack",  # Saved stack before calling Lua function
